@@ -385,6 +385,7 @@ func ruleKeyedStores(r *Run) {
 		}
 		n := 0
 		bad := false
+		group := funcGroup(fn)
 		keyOK := func(k ssa.Value, at ssa.Instruction) (ssa.Value, bool) {
 			kc, ok := k.(*ssa.Call)
 			if !ok || !invokeIs(kc, "Key") {
@@ -415,40 +416,50 @@ func ruleKeyedStores(r *Run) {
 			}
 			return X, true
 		}
-		allInstrs(fn, func(in ssa.Instruction) {
-			switch x := in.(type) {
-			case *ssa.MapUpdate:
-				mt, ok := x.Map.Type().Underlying().(*types.Map)
-				if !ok || typeString(mt.Key()) != "uint64" {
-					return
-				}
-				n++
-				X, ok := keyOK(x.Key, x)
-				if !ok || s.setField == "" {
-					return
-				}
-				// the stored value's label-set field derives from X
-				if !valueCarriesSet(x.Value, s.setField, X) {
-					bad = true
-					o.Fail(r.pos(x.Pos()), "the value stored under X.Key() does not carry X in its %s field", s.setField)
-				}
-			case *ssa.Lookup:
-				mt, ok := x.X.Type().Underlying().(*types.Map)
-				if !ok || typeString(mt.Key()) != "uint64" {
-					return
-				}
-				// enumeration of the map's own keys (sortedKeys(m)[i]) is not a keyed match
-				if lu, ok := x.Index.(*ssa.UnOp); ok {
-					if ia, ok := lu.X.(*ssa.IndexAddr); ok {
-						if kc, ok := ia.X.(*ssa.Call); ok && len(kc.Call.Args) == 1 && kc.Call.Args[0] == x.X {
-							return
+		for _, gf := range group {
+			allInstrs(gf, func(in ssa.Instruction) {
+				switch x := in.(type) {
+				case *ssa.MapUpdate:
+					mt, ok := x.Map.Type().Underlying().(*types.Map)
+					if !ok || typeString(mt.Key()) != "uint64" {
+						return
+					}
+					// writing an entry back under the key it was read from while ranging over the same map is not a keyed match
+					if ex, ok := x.Key.(*ssa.Extract); ok {
+						if nx, ok := ex.Tuple.(*ssa.Next); ok {
+							if rg, ok := nx.Iter.(*ssa.Range); ok && (rg.X == x.Map || describe(rg.X, 0) == describe(x.Map, 0)) {
+								return
+							}
 						}
 					}
+					n++
+					X, ok := keyOK(x.Key, x)
+					if !ok || s.setField == "" {
+						return
+					}
+					// the stored value's label-set field derives from X
+					if !valueCarriesSet(x.Value, s.setField, X) {
+						bad = true
+						o.Fail(r.pos(x.Pos()), "the value stored under X.Key() does not carry X in its %s field", s.setField)
+					}
+				case *ssa.Lookup:
+					mt, ok := x.X.Type().Underlying().(*types.Map)
+					if !ok || typeString(mt.Key()) != "uint64" {
+						return
+					}
+					// enumeration of the map's own keys (sortedKeys(m)[i]) is not a keyed match
+					if lu, ok := x.Index.(*ssa.UnOp); ok {
+						if ia, ok := lu.X.(*ssa.IndexAddr); ok {
+							if kc, ok := ia.X.(*ssa.Call); ok && len(kc.Call.Args) == 1 && kc.Call.Args[0] == x.X {
+								return
+							}
+						}
+					}
+					n++
+					keyOK(x.Index, x)
 				}
-				n++
-				keyOK(x.Index, x)
-			}
-		})
+			})
+		}
 		if n == 0 {
 			o.Fail(r.pos(fn.Pos()), "no store or lookup keyed by a grouping key found")
 			continue
